@@ -584,7 +584,13 @@ class Executor(object):
         if isinstance(a, VNone) or isinstance(b, VNone):
             return [(st, "ok", VT(self.identical(st, a, b)))]
         if isinstance(a, VT) and isinstance(b, VT):
-            return [(st, "ok", VT(tm.FALSE))]  # different python types
+            if a.t.sort == b.t.sort and a.py == b.py:
+                return [(st, "ok", VT(tm.eq(a.t, b.t)))]
+            if a.t.sort == b.t.sort and {a.py, b.py} <= {"int", "bool"}:
+                return [(st, "ok", VT(tm.eq(a.t, b.t)))]
+            if a.t.sort != b.t.sort and {a.py, b.py} <= {"str", "int", "bool"}:
+                return [(st, "ok", VT(tm.FALSE))]  # different python types (str vs int ...)
+            raise Unsupported("== on %r, %r" % (a, b))
         raise Unsupported("== on %r, %r" % (a, b))
 
     def contains(self, container, item, st, fr):
